@@ -173,6 +173,30 @@ instance (st : St) (op : Op) : Decidable (ReplaceRegion st op) := by unfold Repl
 instance (st : St) (op : Op) : Decidable (Region st op) := by unfold Region; exact inferInstance
 instance (op : Op) : Decidable (OpOK op) := by cases op <;> unfold OpOK <;> exact inferInstance
 
+/-- the part of `Valid` that speaks about the sheet's tree only (not about dropped objects) -/
+structure ValidTree (st : St) : Prop where
+  top : TopOK st.rules
+  kids : ∀ r ∈ st.rules, r.kidsOK = true
+  links : ∀ r ∈ st.rules, r.linksOK none true = true
+  ids : ∀ r ∈ st.rules, r.id < st.next
+
+/-- the regions that concern the tree: the two order findings and the two nested-kind findings -/
+def TreeRegion (st : St) (op : Op) : Prop := OrderRegion st op ∨ NestedRegion st op
+
+instance (st : St) (op : Op) : Decidable (TreeRegion st op) := by unfold TreeRegion; exact inferInstance
+
+/-- a history none of whose operations falls into a region that concerns the tree -/
+def CleanTree (st : St) : List Op → Prop
+  | [] => True
+  | op :: ops => OpOK op ∧ ¬ TreeRegion st op ∧ CleanTree (step st op).1 ops
+
+def cleanTreeDec : (st : St) → (ops : List Op) → Decidable (CleanTree st ops)
+  | _, [] => isTrue trivial
+  | st, op :: ops =>
+    have : Decidable (CleanTree (step st op).1 ops) := cleanTreeDec (step st op).1 ops
+    by unfold CleanTree; exact inferInstance
+instance (st : St) (ops : List Op) : Decidable (CleanTree st ops) := cleanTreeDec st ops
+
 /-- a history none of whose operations falls into a region of a listed finding (judged at the state it is applied to) -/
 def Clean (st : St) : List Op → Prop
   | [] => True
